@@ -77,6 +77,20 @@ def inferPGVersion (controlVersion catalogVersion : Nat) : Nat :=
   else if controlVersion ≥ 960 then 9
   else 9
 
+/-- inferPGVersion between fixes/control/10 and fixes/control/22: BANDS of catalog versions under every control version
+≥ 1201, the top band open-ended.  Kept only for `witness_R22` in Props/C16. -/
+def inferPGVersionBands (controlVersion catalogVersion : Nat) : Nat :=
+  if controlVersion ≥ 1201 then
+    (if catalogVersion ≥ 202307071 then 16
+     else if catalogVersion ≥ 202209061 then 15
+     else if catalogVersion ≥ 202107181 then 14
+     else if catalogVersion ≥ 202007201 then 13
+     else 12)
+  else if controlVersion ≥ 1100 then (if catalogVersion ≥ 201909212 then 12 else 11)
+  else if controlVersion ≥ 1002 then 10
+  else if controlVersion ≥ 960 then 9
+  else 9
+
 def parseControlFile (data : Bytes) : M (Option ControlFile) := do
   if data.length < 296 then return none
   let systemIdentifier ← uN 8 data 0
